@@ -31,6 +31,8 @@ FUNCS = [
     ("streamKey", "framework/randomness/stream.py", "RandomnessStream", "_key"),
     ("streamGetDraw", "framework/randomness/stream.py", "RandomnessStream", "get_draw"),
     ("machineTransition", "framework/state_machine.py", "Machine", "transition"),
+    ("createSimulants", "framework/population/manager.py", "PopulationManager", "_create_simulants"),
+    ("viewGet", "framework/population/population_view.py", "PopulationView", "get"),
     ("engineStep", "framework/engine.py", "SimulationContext", "step"),
     ("engineInitializeSimulants", "framework/engine.py", "SimulationContext", "initialize_simulants"),
     ("engineFinalize", "framework/engine.py", "SimulationContext", "finalize"),
@@ -134,6 +136,10 @@ def expr(n) -> str:
         if n.step is not None:
             return _other(n)
         return "(.slice %s %s)" % (expr(n.lower) if n.lower else ".noneE", expr(n.upper) if n.upper else ".noneE")
+    if isinstance(n, ast.IfExp):
+        return "(.ifE %s %s %s)" % (expr(n.test), expr(n.body), expr(n.orelse))
+    if isinstance(n, ast.Dict) and not n.keys:
+        return "(.other \"{}\")"
     if isinstance(n, ast.JoinedStr):
         parts = []
         for v in n.values:
